@@ -5772,6 +5772,19 @@ int64_t ExpressionEvaluator::evaluate_function_call_impl(const ASTNode *node) {
 
         // v0.11.0: ジェネリックメソッド呼び出しの型コンテキスト管理
         bool type_context_pushed = false;
+        // pops the pushed TypeContext on EVERY exit of the call, exceptions
+        // that are not a ReturnException (run-time errors caught by `try`)
+        // included
+        struct TypeContextGuard {
+            Interpreter &interp;
+            bool &pushed;
+            ~TypeContextGuard() {
+                if (pushed) {
+                    interp.pop_type_context();
+                    pushed = false;
+                }
+            }
+        } type_context_guard{interpreter_, type_context_pushed};
         std::string receiver_type_name;
 
         if (is_method_call && !receiver_name.empty()) {
@@ -5936,6 +5949,7 @@ int64_t ExpressionEvaluator::evaluate_function_call_impl(const ASTNode *node) {
                 // v0.11.0: 型コンテキストをクリア
                 if (type_context_pushed) {
                     interpreter_.pop_type_context();
+                    type_context_pushed = false;
                 }
 
                 // implコンテキストをクリア
@@ -6077,6 +6091,7 @@ int64_t ExpressionEvaluator::evaluate_function_call_impl(const ASTNode *node) {
             // v0.11.0: 型コンテキストをクリア
             if (type_context_pushed) {
                 interpreter_.pop_type_context();
+                type_context_pushed = false;
                 if (interpreter_.is_debug_mode()) {
                     {
                         char dbg_buf[512];
@@ -6469,6 +6484,7 @@ int64_t ExpressionEvaluator::evaluate_function_call_impl(const ASTNode *node) {
             // v0.11.0: 型コンテキストをクリア（例外時）
             if (type_context_pushed) {
                 interpreter_.pop_type_context();
+                type_context_pushed = false;
                 if (interpreter_.is_debug_mode()) {
                     {
                         char dbg_buf[512];
